@@ -127,7 +127,7 @@ def _big(rng):
 def matrices(rng, n, exhaustive3=False):
     """the quantifier: all rank-2 and rank-3 matrices over {2..7,inf} (rank 3: every labelling when `exhaustive3`, else one
     random labelling per class and random further ones), samples of rank 4 and 5; infinity written 0/-1/-3 at random"""
-    out = [_sym(_variants(rng, M)) for M in R2]
+    out = [[[1]]] + [_sym(_variants(rng, M)) for M in R2]       # rank 1 and rank 2 as well
     if exhaustive3:
         out += [_sym(_variants(rng, M)) for M in R3_LABELLED]
         out += SPECIAL4
@@ -398,7 +398,7 @@ def tits_solver(M, L):
 
 
 def oracle_L(rank, tier):
-    base = {2: 10, 3: 8, 4: 6}.get(rank, 5)
+    base = {1: 3, 2: 10, 3: 8, 4: 6}.get(rank, 5)
     return base + (2 if tier == "thorough" else 0)
 
 
@@ -413,7 +413,7 @@ def gen_lang(rng, n):
     tier = _tier()
     if tier != "thorough":
         n = min(n, 600)      # the runner's escalated search asks for 10x; the exhaustive part is already in the first 358
-    nexh = len(R2) + len(R3_LABELLED) + len(SPECIAL4)
+    nexh = 1 + len(R2) + len(R3_LABELLED) + len(SPECIAL4)
     ms = matrices(rng, n, exhaustive3=True)
     # a few rank-3 cases through the diagram route as well (the exhaustive block keeps the matrix route, so that every
     # labelling is really visited)
@@ -424,7 +424,9 @@ def gen_lang(rng, n):
             {"route": "matrix", "M": M, "style": rng.choice(["alpha", "alphanum"])}
         Mx, _ = X.expected_matrix_and_names(spec)
         yield {"M": Mx, "spec": spec, "style": spec.get("style", "alpha"), "L": oracle_L(len(M), tier),
-               "buffer": rng.random() < 0.4, "order": rng.sample(range(3), 3)}
+               "buffer": rng.random() < 0.3, "order": rng.sample(range(3), 3),
+               # dtype of the Coxeter matrix handed to the constructor (matrix route): packaging must not matter
+               "dtype": rng.choice(["int64", "int64", "float32", "float32", "float64", "int8", "object", "float16"])}
 
 
 def accepted(aut, names, L, even=False):
@@ -459,6 +461,11 @@ def run_lang(inp):
         G = coxeter.CoxeterGroup(matrix=work, generator_style=inp["style"])
         work[...] = 2
         np.fill_diagonal(work, 1)
+        names = X.expected_matrix_and_names(inp["spec"])[1]
+    elif "spec" in inp and inp["spec"]["route"] == "matrix":
+        dt = {"int64": np.int64, "float32": np.float32, "float64": np.float64, "int8": np.int8, "object": object,
+              "float16": np.float16}[inp.get("dtype", "int64")]
+        G = coxeter.CoxeterGroup(matrix=np.array(M, dtype=dt), generator_style=inp["style"])
         names = X.expected_matrix_and_names(inp["spec"])[1]
     elif "spec" in inp:
         G = X.build_group(inp["spec"])
@@ -652,11 +659,12 @@ def judge_r2(inp, obs, lr):
 # ---- sessions: generic defences G1-G4 for the automata -------------------------------------------------------------
 def gen_session(rng, n):
     for _ in range(n):
-        rank = rng.choice([2, 3, 3])
+        rank = rng.choice([1, 2, 3, 3])
         members = []
         for _m in range(rng.choice([2, 3])):
-            M = _sym(_variants(rng, rng.choice(R2 if rank == 2 else R3_LABELLED)))
-            members.append({"M": M, "ctor": rng.choice(X.CTORS), "style": rng.choice(["alpha", "alphanum"])})
+            M = [[1]] if rank == 1 else _sym(_variants(rng, rng.choice(R2 if rank == 2 else R3_LABELLED)))
+            ctor = rng.choice([c for c in X.CTORS if rank > 1 or not c.startswith("diagram")])
+            members.append({"M": M, "ctor": ctor, "style": rng.choice(["alpha", "alphanum"])})
         steps = [{"g": rng.randrange(len(members)), "lex": rng.random() < 0.5, "even": rng.random() < 0.4,
                   "scribble": rng.choice([None, None, "delete", "rename", "clear", "add"])} for _ in range(rng.choice([5, 7, 9]))]
         yield {"rank": rank, "members": members, "steps": steps}
@@ -730,6 +738,147 @@ def judge_session(inp, obs, lr):
     return None
 
 
+# ---- generator namings x automaton options, judged through accepts / follow_word with list words ---------------------
+NAMINGS = ["ints_shift", "ints_perm", "ints_rev", "ints_disjoint", "multichar", "letters_perm", "case", "tuples", "default_letters"]
+
+
+def _names_for(rng, kind, n):
+    if kind == "ints_shift":
+        return list(range(1, n + 1))
+    if kind == "ints_perm":
+        while True:
+            p = list(range(n))
+            rng.shuffle(p)
+            if p != list(range(n)) or n == 1:
+                return p
+    if kind == "ints_rev":
+        return list(range(n - 1, -1, -1))
+    if kind == "ints_disjoint":
+        return [10 * (i + 1) + 7 for i in range(n)]
+    if kind == "multichar":
+        return rng.sample(["r1", "r2", "r3", "s0", "s1", "gen", "t12", "x9"], n)
+    if kind == "letters_perm":
+        p = list("abcdefgh"[:n])
+        while True:
+            rng.shuffle(p)
+            if p != list("abcdefgh"[:n]) or n == 1:
+                return p
+    if kind == "case":
+        return (["a", "A", "b", "B", "c"])[:n]
+    if kind == "tuples":
+        return [("g", i) for i in range(n)]
+    return list("abcdefgh"[:n])
+
+
+def gen_naming(rng, n):
+    pool = R2 + R3_LABELLED
+    for idx in range(n):
+        M = _sym(_variants(rng, rng.choice(pool if rng.random() < 0.85 else SPECIAL4)))
+        r = len(M)
+        kind = NAMINGS[idx % len(NAMINGS)]
+        names = _names_for(rng, kind, r)
+        pairs = [(i, j) for i in range(r) for j in range(i + 1, r)]
+        rng.shuffle(pairs)
+        edges, order = [], []
+        for (i, j) in pairs:
+            if rng.random() < 0.5:
+                i, j = j, i
+            edges.append([names[i], names[j], M[i][j]])
+            for k in (i, j):
+                if k not in order:
+                    order.append(k)
+        yield {"M": M, "naming": kind, "edges": edges, "order": order, "names": names,
+               "probe_nonstring_even": (not all(isinstance(x, str) for x in names)) and rng.random() < 0.25}
+
+
+def _hashable(x):
+    return tuple(x) if isinstance(x, list) else x
+
+
+def run_naming(inp):
+    from geometry_tools import coxeter
+    order = inp["order"]
+    M = [[inp["M"][i][j] for j in order] for i in order]
+    names = [_hashable(inp["names"][i]) for i in order]
+    n = len(M)
+    G = coxeter.CoxeterGroup(diagram=[(_hashable(a), _hashable(b), o) for a, b, o in inp["edges"]])
+    strings = all(isinstance(x, str) for x in names)
+    if inp.get("probe_nonstring_even"):
+        out = {}
+        for what, fn in (("even_automaton", lambda: G.automaton(even_length=True)),
+                         ("enumerate_words", lambda: list(G.automaton().enumerate_words(2)))):
+            try:
+                fn()
+                out[what] = "ok"
+            except TypeError as e:
+                out[what] = "TypeError"
+        return {"probe": out}
+    L = {1: 4, 2: 8, 3: 6}.get(n, 4)
+    levels = tits_solver(M, L)
+    reduced = set().union(*[set().union(*lv) if lv else set() for lv in levels])
+    nf = {min(c) for lv in levels for c in lv}
+    bad = {}
+    if list(G.ordered_gens) != names or np.asarray(G.coxeter_matrix).tolist() != M:
+        bad["constructor"] = {"ordered_gens": [str(x) for x in G.ordered_gens], "matrix": np.asarray(G.coxeter_matrix).tolist()}
+    for lex in (False, True):
+        ref = nf if lex else reduced
+        aut = G.automaton(shortlex=lex)
+        wrong = []
+        for l in range(L + 1):
+            for w in itertools.product(range(n), repeat=l):
+                if l >= 2 and any(w[i] == w[i + 1] for i in range(l - 1)) and l > 4:
+                    continue            # longer words with a square: rejected by both sides (checked up to length 4)
+                word = [names[k] for k in w]
+                acc = aut.accepts(word)
+                try:
+                    aut.follow_word(word)
+                    fol = True
+                except Exception as e:
+                    fol = False if type(e).__name__ == "FSAException" else "exc:" + type(e).__name__
+                if acc != (w in ref) or fol != (w in ref):
+                    wrong.append([list(w), acc, fol])
+        if wrong:
+            bad["lex" if lex else "geo"] = wrong[:4]
+        if strings:
+            lib = set(aut.enumerate_words(L))
+            mine = {"".join(names[k] for k in w) for w in ref}
+            if lib != mine:
+                bad[("lex" if lex else "geo") + "_enumerate_words"] = sorted(lib ^ mine)[:4]
+            ws = list(aut.enumerate_words(min(L, 4), with_states=True))
+            if any(len(x) != 2 for x in ws) or {x[0] for x in ws} != {"".join(names[k] for k in w) for w in ref if len(w) <= min(L, 4)}:
+                bad[("lex" if lex else "geo") + "_with_states"] = True
+            # even-length variant, through accepts with a list of two-letter labels
+            done, ev = even_limited(1, lambda: G.automaton(shortlex=lex, even_length=True))
+            if done:
+                wrong = []
+                for l in range(0, min(L, 6) + 1, 2):
+                    for w in itertools.product(range(n), repeat=l):
+                        word = [names[w[i]] + names[w[i + 1]] for i in range(0, l, 2)]
+                        if ev.accepts(word) != (w in ref):
+                            wrong.append(list(w))
+                if wrong:
+                    bad[("lex" if lex else "geo") + "_even"] = wrong[:4]
+    return {"bad": bad}
+
+
+def judge_naming(inp, obs, lr):
+    tags = {"naming": inp["naming"]}
+    if "exc" in obs:
+        return {"expected": "automata", "observed": obs, "tags": {**tags, "exc": obs["exc"]}}
+    if "probe" in obs:
+        if obs["probe"] != {"even_automaton": "ok", "enumerate_words": "ok"}:
+            return {"expected": "even_automaton / enumerate_words work for the generator names the diagram constructor documents "
+                                "('any hashable object')", "observed": obs["probe"],
+                    "tags": {"names": "nonstring", "what": "even_or_enumerate_TypeError"}}
+        return None
+    if obs["bad"]:
+        what = sorted(obs["bad"])[0]
+        return {"expected": "accepts / follow_word / enumerate_words agree with the reduced words (geodesic) and the least reduced "
+                            "expressions (shortlex), whatever the generators are called", "observed": obs["bad"],
+                "tags": {**tags, "what": what}}
+    return None
+
+
 CLAUSES = [
     Clause("automaton_corr", "corr", gen_aut, run_aut, judge_aut, lean=lean_aut,
            site="coxeter.CoxeterGroup.automaton / coxeter_automaton.find_small_roots, generate_automaton",
@@ -749,6 +898,12 @@ CLAUSES = [
            what="generic defences G1-G4: interleaved automaton requests (shortlex x even_length) on 2-3 groups of rank 2-3 built from "
                 "buffers, views, tuples, float/int32 arrays and one-shot diagram iterables that the caller edits afterwards; returned "
                 "automata are edited by the caller (delete_vertex, rename, clear, add_edges); every answer equals a FRESH group's"),
+    Clause("naming_oracle", "oracle", gen_naming, run_naming, judge_naming, site="coxeter.CoxeterGroup.automaton / fsa.rename_generators",
+           budget={"quick": 108, "thorough": 1500},
+           what="groups built from diagrams with every kind of generator naming (integers overlapping 0..n-1 in permuted / shifted / "
+                "reversed order, disjoint integers, tuples, multi-character strings, permuted default letters, names equal to another "
+                "generator's other case) x every automaton option, judged by the independent language reference through accepts() and "
+                "follow_word() with list words, enumerate_words (also with_states) and the even variant"),
     Clause("language_oracle", "oracle", gen_lang, run_lang, judge_lang, lean=lean_lang,
            site="coxeter.CoxeterGroup.automaton", budget={"quick": 400, "thorough": 650},
            what="BOUNDED TEST of the unproved clause: accepted words up to length L vs independent Tits braid-move solver and "
